@@ -255,7 +255,7 @@ Module Findings.
   Definition tid := be_enc 32 777.
   Definition its0 (trusted_ : list (bytes * bytes)) (paused : bool) : its :=
     {| i_gateway := gwa; i_gas := gasa; i_tm_impl := A 19; i_chain := str "multiversx"; i_chain_hash := keccak256 (str "multiversx");
-       i_paused := paused; i_trusted := trusted_; i_tms := [(tid, tma)]; i_locks := []; i_approvals := []; i_roles := [] |}.
+       i_paused := paused; i_trusted := trusted_; i_tms := [(tid, tma)]; i_locks := []; i_approvals := []; i_roles := []; i_proposed := [] |}.
   Definition tm0 (limit : N) : tm :=
     {| tm_service := self; tm_type := T_LOCK_UNLOCK; tm_tid := tid; tm_token := tok; tm_roles := []; tm_proposed := [];
        tm_limit := limit; tm_in := []; tm_out := []; tm_pending := 0 |}.
